@@ -305,6 +305,7 @@ pub struct World {
     audit_now: bool,
     /// constant cells: (gc id of the private never-firing stream their CellData owns, weak handle on that CellData)
     const_cells: Vec<(u32, std::sync::Weak<dyn std::any::Any + Send + Sync>)>,
+    heap_dump: Mutex<String>,
     /// killer listener -> victim listener (listen_u)
     killers: HashMap<usize, usize>,
     /// gc ids of objects whose handles are stored as VALUES (candidates of a `sel:` function): values holding
@@ -325,6 +326,7 @@ impl World {
             annotate,
             audit_now: false,
             const_cells: Vec::new(),
+            heap_dump: Mutex::new(String::new()),
             killers: HashMap::new(),
             value_held: std::collections::HashSet::new(),
         }
@@ -473,6 +475,10 @@ impl World {
             }
             if q.0 == 0 && self.audit_now {
                 ann.push(format!("A={}", self.audit()));
+                let hd = std::mem::take(&mut *self.heap_dump.lock().unwrap());
+                if !hd.is_empty() {
+                    ann.push(format!("H={}", hd));
+                }
             }
             ann.push(format!(
                 "d={} q={},{},{},{} cc={} ka={} f={} n={}",
@@ -575,6 +581,25 @@ impl World {
         }
         let mut ids: Vec<u32> = seen.keys().cloned().collect();
         ids.sort();
+        if std::env::var("VERIF_HEAP_DUMP").is_ok() {
+            // complete table of the reachable heap: id:name:freed:rc:handles:edges (for the heap model's validation)
+            let mut rows: Vec<String> = Vec::new();
+            for id in &ids {
+                let g = &seen[id];
+                let sn = g.verif_snapshot();
+                let es: Vec<String> = g.verif_edges().iter().map(|e| e.verif_id().to_string()).collect();
+                rows.push(format!(
+                    "{}:{}:{}:{}:{}:{}",
+                    id,
+                    format!("{}", g.verif_name()).replace(' ', "_"),
+                    sn.freed as u8,
+                    sn.ref_count,
+                    ext.get(id).map(|x| x.0).unwrap_or(0),
+                    es.join(".")
+                ));
+            }
+            *self.heap_dump.lock().unwrap() = rows.join("/");
+        }
         for id in ids {
             let g = &seen[&id];
             let sn = g.verif_snapshot();
